@@ -45,8 +45,15 @@ NT = 64
 REPEAT = ["a + b", "a > b || b > 0", "[a, b].exists(x, x > a)", "a > 0 ? a : b", "[1, 2].map(x, x + b)[0] + a", "a == 1 && b == 2"]
 
 
+# identifier spellings that are also names inside the library's own name space (attributes and methods of its activation /
+# evaluator objects, module globals of the evaluation module, Python dunder names): as CEL variables and as macro variables
+IDENT_NAMES = ["package", "functions", "identifiers", "get", "clone", "resolve_variable", "resolve_function", "nested_activation", "activation", "self", "result",
+               "celpy", "logger", "base_activation", "the_activation", "CEL", "ex_1", "re", "operator", "__class__", "__dict__", "_x", "macro_map", "cls", "type_", "x_"]
+
+
 def tasks(tier):
-    return [{"tier": tier, "stride": i} for i in range(NT)] + [{"tier": tier, "repeat": i} for i in range(len(REPEAT))]
+    return [{"tier": tier, "stride": i} for i in range(NT)] + [{"tier": tier, "repeat": i} for i in range(len(REPEAT))] + \
+        [{"tier": tier, "idents": IDENT_NAMES[i::4]} for i in range(4)]
 
 
 def run_task(task, kf):
@@ -55,6 +62,8 @@ def run_task(task, kf):
     first = True
     if "repeat" in task:
         return [explore.explore(repeat_harness(REPEAT[task["repeat"]]), kf, profile_root=loader.SRC)]
+    if "idents" in task:
+        return [explore.explore(ident_harness(n), kf, profile_root=loader.SRC if i == 0 else None) for i, n in enumerate(task["idents"])]
     for typ, src, origin in all_skeletons(task["tier"])[task["stride"]::NT]:
         h = harness(typ, src, origin, 120 if task["tier"] == "quick" else 300)
         out.append(explore.explore(h, kf, profile_root=loader.SRC if first else None))
@@ -116,6 +125,53 @@ def harness(typ, src, origin, budget):
         return {"check": "c03.agree", "args": {"src": src, "bindings": to_json(vals)}}
 
     return Harness(id=f"C03:{src}", vars=vars, pre=pre, run=run, witness=witness, max_paths=budget)
+
+
+def ident_sources(name):
+    return [f"{name} + a", f"[a, b].map({name}, {name} + 1)[1]", f"[a].exists({name}, {name} == a) && {name} == b", f"{name} > a ? {name} : a", f"[{name}][0] - a"]
+
+
+def ident_harness(name):
+    """a variable (and a macro variable) spelled `name`: both runners give it the bound value"""
+    celpy, ct, ev = common.mods()
+    from ..sym.core import SInt, mk
+    N, A, B = z3.Int("n"), z3.Int("a"), z3.Int("b")
+    vars = {"n": N, "a": A, "b": B}
+    pre = []
+    for v in vars.values():
+        pre += [v >= -(2**40), v <= 2**40]
+    progs = []
+    for src in ident_sources(name):
+        built = {}
+        for r in common.RUNNERS:
+            built[r] = common.outcome(lambda: common.make_program(src, r))
+        progs.append((src, built))
+
+    def run(vals):
+        obs = []
+        b = {name: ct.IntType(mk(SInt, N, vals["n"])), "a": ct.IntType(mk(SInt, A, vals["a"])), "b": ct.IntType(mk(SInt, B, vals["b"]))}
+        for src, built in progs:
+            tags = {"ident": name}
+            if built["interp"][0] != "value":
+                obs.append(Ob("C03/ident/interp-unbuildable", z3.BoolVal(True)))
+                continue
+            if built["compiled"][0] != "value":
+                obs.append(Ob("C03/ident/construction", z3.BoolVal(False), note=f"`{src}`: compiled runner failed at program construction: {built['compiled'][1]!r:.100}", tags=tags))
+                continue
+            ki, vi = common.outcome(lambda: built["interp"][1].evaluate(dict(b)))
+            kc, vc = common.outcome(lambda: built["compiled"][1].evaluate(dict(b)))
+            if ki != kc:
+                obs.append(Ob("C03/ident/kind", z3.BoolVal(False), note=f"`{src}`: interp {ki} {_short(vi)}; compiled {kc} {_short(vc)}", tags=tags))
+            elif ki == "value":
+                obs.append(Ob("C03/ident/value", skel.equal_term(vi, vc), note=f"`{src}`", tags=tags))
+            else:
+                obs.append(Ob("C03/ident/kind", z3.BoolVal(True)))
+        return obs
+
+    def witness(vals):
+        return {"check": "c03.ident", "args": {"name": name, "vals": {k: int(v) for k, v in vals.items()}}}
+
+    return Harness(id=f"C03/ident:{name}", vars=vars, pre=pre, run=run, witness=witness, max_paths=40)
 
 
 def repeat_harness(src):
